@@ -40,6 +40,19 @@ func hvcRandInt(rng *rand.Rand, bits int, signed bool) int64 {
 	return v
 }
 
+// hvcForeignHidden: a struct type of another package that has unexported fields.
+func hvcForeignHidden(t reflect.Type) bool {
+	if t.Kind() != reflect.Struct || t.PkgPath() == "" || t.PkgPath() == hvcPkgPath {
+		return false
+	}
+	for i := 0; i < t.NumField(); i++ {
+		if t.Field(i).PkgPath != "" {
+			return true
+		}
+	}
+	return false
+}
+
 func hvcRandFill(rng *rand.Rand, v reflect.Value, depth int) {
 	if !v.CanSet() {
 		if !v.CanAddr() {
@@ -76,12 +89,18 @@ func hvcRandFill(rng *rand.Rand, v reflect.Value, depth int) {
 			hvcRandFill(rng, v.Index(i), depth+1)
 		}
 	case reflect.Struct:
+		if hvcForeignHidden(v.Type()) {
+			return // an object of another package with hidden state: left at its zero value
+		}
 		for i := 0; i < v.NumField(); i++ {
 			hvcRandFill(rng, v.Field(i), depth+1)
 		}
 	case reflect.Ptr:
 		if depth > 2 {
 			return
+		}
+		if v.Type().Elem().Kind() == reflect.Struct && hvcForeignHidden(v.Type().Elem()) {
+			return // cannot be constructed faithfully: left nil
 		}
 		p := reflect.New(v.Type().Elem())
 		hvcRandFill(rng, p.Elem(), depth+1)
@@ -221,6 +240,7 @@ func (v *Verifier) fuzzSearch(o *Obligation, fx *FnCtx, fn *ssa.Function, fc *Fu
 	}
 	sb.WriteString(")\n\nvar _ = unsafe.Pointer(nil)\n")
 	sb.WriteString(decls)
+	fmt.Fprintf(&sb, "\nconst hvcPkgPath = %q\n", pkg.Path())
 	sb.WriteString(fuzzHelpers)
 	fmt.Fprintf(&sb, "\nfunc TestHvcReplay(hvcT *testing.T) {\n\trng := rand.New(rand.NewSource(%d))\n\ttried := 0\n\tfor iter := 0; iter < 400000 && tried < 60000; iter++ {\n", seed+1)
 	sb.WriteString(body.String())
